@@ -91,3 +91,59 @@ func TestSmoke(t *testing.T) {
 		})
 	}
 }
+
+// an online-mode (encrypted) client joins and relays a large packet
+func TestSmokeOnline(t *testing.T) {
+	for _, v := range Versions {
+		v := v
+		t.Run(v.Name, func(t *testing.T) {
+			t.Parallel()
+			a, _ := NewBackend("alpha", func(int) Script { return Script{Do: Accept, Threshold: 64} })
+			defer a.Close()
+			px, err := StartProxy(ProxyOpts{ClientThreshold: 256, Try: []string{"alpha"}, Online: true})
+			if err != nil {
+				t.Fatal(err)
+			}
+			defer px.Close()
+			if _, err = px.Register(a); err != nil {
+				t.Fatal(err)
+			}
+			cl, err := Dial(px.Addr(), v, "OnlineGuy")
+			if err != nil {
+				t.Fatal(err)
+			}
+			defer cl.Close()
+			if err = cl.Login("localhost", 25565); err != nil {
+				t.Fatal(err)
+			}
+			if !cl.Encrypted() {
+				t.Fatal("no encryption exchange")
+			}
+			if !cl.WaitJoins(1, 10*time.Second) {
+				t.Fatalf("no JoinGame; closed=%v err=%v", cl.IsClosed(), cl.Err)
+			}
+			ac := a.WaitConn(0, time.Second)
+			if !ac.WaitJoined(5 * time.Second) {
+				t.Fatal("backend not joined")
+			}
+			time.Sleep(100 * time.Millisecond)
+			up := MakePayload(0x7e, bytes.Repeat([]byte{0xab, 0x12, 0x77}, 5000))
+			base := len(ac.Received())
+			if err = cl.Send(up); err != nil {
+				t.Fatal(err)
+			}
+			ok := false
+			for i := 0; i < 400 && !ok; i++ {
+				for _, p := range ac.Received()[base:] {
+					if bytes.Equal(p, up) {
+						ok = true
+					}
+				}
+				time.Sleep(5 * time.Millisecond)
+			}
+			if !ok {
+				t.Fatal("large serverbound packet not relayed intact")
+			}
+		})
+	}
+}
